@@ -121,3 +121,21 @@ Definition run_big (fx : fixes) (op shape n w k : Z) (cache : option Z) : jv :=
     run_children_rec_t fx t (if shape =? 0 then Some (zseq (k + 1) (Z.to_nat (n - k))) else None) [] [] cache o
   else if op =? 2 then run_parent_t fx t [] [] cache o
   else run_parents_t fx t [] [] cache o.
+
+(* a case that first copies the caller (how: 0 = none, 1 = copy.copy, 2 = copy.deepcopy, 3 = pickle round
+   trip) and asks the copy: [r] = the run on the copied object; when no copy is created the model
+   answer is NoCopy(TypeError) and no call is made (the demanded answer stays: it applies to any
+   tree in which such a copy does exist) *)
+Definition copy_how_of (how : Z) : copy_how :=
+  if how =? 2 then DeepCopy else if how =? 3 then PickleRoundTrip else ShallowCopy.
+Definition copied (how : Z) (o : pobj) : pobj :=
+  match copy_result (copy_how_of how) o with Val c => c | _ => o end.
+Definition after_copy (how : Z) (o : pobj) (r : jv) : jv :=
+  match copy_result (copy_how_of how) o with
+  | Val _ => r
+  | Exc e => match r with
+             | JL [m; s; tg] => JL [JC "NoCopy" [JC (exn_name e) []]; s; tg]
+             | x => x
+             end
+  | OutOfModel => r
+  end.
